@@ -18,6 +18,14 @@ import (
 //	closure:                 name of the anonymous function
 //	otherwise ""             (dynamic call through a func value)
 func calleeName(call ssa.CallInstruction) string {
+	n := rawCalleeName(call)
+	if o, ok := renamedFrom[n]; ok {
+		return o // a renamed function is reported under the name the rules know (renames.go)
+	}
+	return n
+}
+
+func rawCalleeName(call ssa.CallInstruction) string {
 	cc := call.Common()
 	if cc.IsInvoke() {
 		return short(cc.Method.FullName())
@@ -223,12 +231,16 @@ func callsAllX(fn *ssa.Function, pats ...string) []ssa.CallInstruction {
 }
 
 func fnNameForMatch(g *ssa.Function) string {
+	n := fnName(g)
 	if g.Object() != nil {
 		if tf, ok := g.Object().(*types.Func); ok {
-			return short(tf.FullName())
+			n = short(tf.FullName())
 		}
 	}
-	return fnName(g)
+	if o, ok := renamedFrom[n]; ok {
+		return o
+	}
+	return n
 }
 
 // allInstrsX iterates over fn and its same-package helpers (depth <= 2)
@@ -505,6 +517,9 @@ func reachWalk(r *reachSet, w rwork, c *cut, work *[]rwork) {
 	if w.facts != nil {
 		only = factsSucc(b, w.facts)
 	}
+	if only < 0 && ctx != nil {
+		only = constArgSucc(b, ctx)
+	}
 	for si, s := range b.Succs {
 		if c != nil && c.edges[edge{b, si}] {
 			continue
@@ -519,6 +534,43 @@ func reachWalk(r *reachSet, w rwork, c *cut, work *[]rwork) {
 			*work = append(*work, rwork{s, 0, ctx, nil})
 		}
 	}
+}
+
+// constArgSucc: block b (inside a helper entered at ctx.site) ends in `if p` / `if !p` where p is a bool parameter of the
+// helper and the call site passes a constant: only one successor is possible in this context. -1 when nothing is known.
+func constArgSucc(b *ssa.BasicBlock, ctx *rctx) int {
+	if len(b.Instrs) == 0 || ctx == nil || ctx.site == nil {
+		return -1
+	}
+	iff, ok := b.Instrs[len(b.Instrs)-1].(*ssa.If)
+	if !ok {
+		return -1
+	}
+	cond, neg := iff.Cond, false
+	if u, ok := cond.(*ssa.UnOp); ok && u.Op == token.NOT {
+		cond, neg = u.X, true
+	}
+	p, ok := cond.(*ssa.Parameter)
+	if !ok || p.Parent() != b.Parent() {
+		return -1
+	}
+	idx := -1
+	for i, q := range p.Parent().Params {
+		if q == p {
+			idx = i
+		}
+	}
+	if idx < 0 || idx >= len(ctx.site.Call.Args) {
+		return -1
+	}
+	v, isC := constBoolVal(ctx.site.Call.Args[idx])
+	if !isC {
+		return -1
+	}
+	if v != neg {
+		return 0
+	}
+	return 1
 }
 
 // factsSucc: block b ends in `if <result of the helper call> ==/!= nil`; with the nil-ness established by the helper's
@@ -760,6 +812,47 @@ func constPhiSucc(path []*ssa.BasicBlock, s *ssa.BasicBlock) (int, bool) {
 	return 0, false
 }
 
+// siteIn: the call instruction of fn through which call is executed: call itself when it is in fn (or a closure of fn), otherwise
+// the one static call in fn of the same-package helper (depth <= 2) that contains it. nil when there is none or several.
+func siteIn(fn *ssa.Function, call ssa.CallInstruction) ssa.CallInstruction {
+	in := call
+	for d := 0; d < 3; d++ {
+		host := in.Parent()
+		top := host
+		for top.Parent() != nil {
+			top = top.Parent()
+		}
+		if top == fn {
+			return in
+		}
+		var sites []ssa.CallInstruction
+		for _, cs := range staticSites[top] {
+			sites = append(sites, cs)
+		}
+		if len(sites) != 1 {
+			return nil
+		}
+		in = sites[0]
+	}
+	return nil
+}
+
+// throughParams: a parameter of a helper with exactly one static call site stands for the argument given there
+func throughParams(v ssa.Value) ssa.Value {
+	for d := 0; d < 3; d++ {
+		p, ok := v.(*ssa.Parameter)
+		if !ok {
+			return v
+		}
+		acts := actualsOf(p)
+		if len(acts) != 1 {
+			return v
+		}
+		v = acts[0]
+	}
+	return v
+}
+
 // returns lists the Return instructions of fn.
 func returns(fn *ssa.Function) []*ssa.Return {
 	var out []*ssa.Return
@@ -943,7 +1036,21 @@ func nonNilErrOperand(v ssa.Value, errVals []ssa.Value) bool {
 		return !x.IsNil()
 	case *ssa.Call:
 		n := calleeName(x)
-		return n == "fmt.Errorf" || n == "errors.New"
+		if n == "fmt.Errorf" || n == "errors.New" {
+			return true
+		}
+		// a same-package helper that builds the error: every return of it gives a non-nil one
+		if x.Call.Signature().Results().Len() == 1 {
+			if rs := helperResults(x, 0); len(rs) > 0 {
+				for _, rv := range rs {
+					if rv == v || !nonNilErrOperand(rv, nil) {
+						return false
+					}
+				}
+				return true
+			}
+		}
+		return false
 	case *ssa.MakeInterface:
 		return true
 	case *ssa.UnOp:
